@@ -73,7 +73,7 @@ func c18HookConf(kv map[string]string, w *world) string {
 	classify := func(p interface{}, err error, data interface{}) string {
 		switch {
 		case err != nil:
-			if te, ok := err.(*tErr); ok {
+			if te, ok := asTErr(err); ok {
 				return "err." + te.Error()
 			}
 			msg := err.Error()
